@@ -21,13 +21,16 @@ from . import tlagraph as G
 _PROB = {}
 VARIANTS = [dict(), dict(twofreq=True, case="VTI"), dict(gmode="dict"),
             dict(twofreq=True, gmode="input")]
+LAYERED = [dict(layered=True), dict(layered=True, twofreq=True, case="VTI")]
+NV = len(VARIANTS)            # variant ids >= NV are the layered ones
+ALLV = VARIANTS + LAYERED
 SHARED_KEY = "sharedfiledir"
 
 
 def _prepare(vi):
     os.environ.setdefault("NUMBA_NUM_THREADS", "1")
     from . import simreplay
-    return simreplay.Problem(VARIANTS[vi], seed=vi).prepare()
+    return simreplay.Problem(ALLV[vi], seed=vi).prepare()
 
 
 def _replay(job):
@@ -36,7 +39,7 @@ def _replay(job):
     vi, file_mode, steps, seed = job
     try:
         if vi not in _PROB:
-            _PROB[vi] = simreplay.Problem(VARIANTS[vi], seed=vi).prepare()
+            _PROB[vi] = simreplay.Problem(ALLV[vi], seed=vi).prepare()
         return simreplay.replay(_PROB[vi], file_mode, steps, seed)
     except Exception as e:  # noqa
         import traceback
@@ -153,6 +156,8 @@ def exhaustive(rep, tier):
     if tier == "thorough":
         runs.append(("SimCache_full.cfg", "in-memory, complete abstract "
                      "graph (unbounded histories)"))
+    runs.append(("SimCache_lay.cfg", "layered=True, in-memory, 2 objects, "
+                 "histories <= 5"))
     for cfg, what in runs:
         res = C.run_tlc("SimCache", cfg, coverage=(cfg == "SimCache_mem.cfg"),
                         timeout=3000)
@@ -188,13 +193,14 @@ def exhaustive(rep, tier):
         raise C.MachineryError("TLC did not find the shared file_dir effect")
 
 
-def jobs_from_graph(cfg, file_mode, rng, budget, maxlen=8):
+def jobs_from_graph(cfg, file_mode, rng, budget, maxlen=8, layered=False):
     g, res = G.dump_graph("SimCache", cfg)
     walks, left = G.greedy_edge_cover(g, rng, maxlen, budget=budget)
     jobs = []
     for i, w in enumerate(walks):
         steps = [g.state[e[2]] for e in w]
-        jobs.append((i % len(VARIANTS), file_mode, steps, rng.randrange(10**6)))
+        vi = NV + i % len(LAYERED) if layered else i % len(VARIANTS)
+        jobs.append((vi, file_mode, steps, rng.randrange(10**6)))
     return jobs, g, left, res
 
 
@@ -289,9 +295,16 @@ def run(tier, replay=None):
                                             60 if q else 1500)
         j4, r4 = jobs_from_sim("SimCache_w2file.cfg", True, rng,
                                60 if q else 1500)
-        jobs = j1 + j2 + j3 + j4
+        # layered=True: 1D modeller, responses only (complete graph, 272
+        # states: full edge cover in both tiers)
+        j5, g5, left5, r5 = jobs_from_graph("SimCache_w1lay.cfg", False, rng,
+                                            None, layered=True)
+        rep.cov["layered_graph_states"] = len(g5.state)
+        rep.cov["layered_edges_uncovered"] = left5
+        jobs = j1 + j2 + j3 + j4 + j5
         meta = ([("w1-cover", None)]*len(j1) + [("w2-sim", None)]*len(j2) +
-                [("w1file-cover", None)]*len(j3) + [("w2file-sim", None)]*len(j4))
+                [("w1file-cover", None)]*len(j3) + [("w2file-sim", None)]*len(j4)
+                + [("w1layered-cover", None)]*len(j5))
     need = sorted({j[0] for j in jobs} - set(_PROB))
     if need:
         with mp.get_context("fork").Pool(len(need)) as pool:
@@ -328,7 +341,7 @@ def run(tier, replay=None):
     if jobs:
         k = rng.randrange(len(jobs))
         rep.sample({"source": meta[k][0], "file_mode": jobs[k][1],
-                    "variant": VARIANTS[jobs[k][0]] if not replay else None,
+                    "variant": ALLV[jobs[k][0]] if not replay else None,
                     "operations": ops_of(jobs[k][2]),
                     "spec_state_after_last_op": jobs[k][2][-1]})
     return rep.finish()
